@@ -127,22 +127,31 @@ func (a *An) CallsIn(f *ssa.Function, callee string) []ssa.CallInstruction {
 	if f == nil {
 		return nil
 	}
-	for _, b := range f.Blocks {
-		for _, in := range b.Instrs {
-			call, ok := in.(ssa.CallInstruction)
-			if !ok {
-				continue
-			}
-			if a.F.callName(call) == callee {
-				out = append(out, call)
-				continue
-			}
-			for _, g := range a.C.Callees(call) {
-				if a.C.Name(a.C.unwrap(g)) == callee {
+	scan := func(f *ssa.Function) {
+		for _, b := range f.Blocks {
+			for _, in := range b.Instrs {
+				call, ok := in.(ssa.CallInstruction)
+				if !ok {
+					continue
+				}
+				if a.F.callName(call) == callee {
 					out = append(out, call)
-					break
+					continue
+				}
+				for _, g := range a.C.Callees(call) {
+					if a.C.Name(a.C.unwrap(g)) == callee {
+						out = append(out, call)
+						break
+					}
 				}
 			}
+		}
+	}
+	scan(f)
+	// new single-use helpers of f are part of f
+	for _, g := range a.C.FuncSeq {
+		if g != f && a.C.isNew(g) && a.C.owner(g) == f {
+			scan(g)
 		}
 	}
 	return out
@@ -204,7 +213,7 @@ func (a *An) WhoMayWrite(rule string, target *types.Var, allowed ...string) {
 	}
 	found := map[string]bool{}
 	for _, st := range a.StoresTo(target) {
-		fn := a.C.Name(st.Parent())
+		fn := a.C.Name(a.C.owner(st.Parent()))
 		found[fn] = true
 		key := "write|" + target.Name() + "|" + fn
 		a.R.Check(allow[fn], rule, key, "store to "+target.Name()+" only in "+strings.Join(allowed, ", "), a.C.InstrPos(st),
@@ -222,7 +231,10 @@ func (a *An) WhoMayCall(rule string, fn *ssa.Function, allowed ...string) {
 		allow[s] = true
 	}
 	for _, cs := range a.CallSites(fn) {
-		caller := a.C.Name(cs.Parent())
+		if a.C.isNew(fn) && a.C.owner(fn) != fn {
+			continue // a new single-use helper: judged as part of its caller
+		}
+		caller := a.C.Name(a.C.owner(cs.Parent()))
 		key := "call|" + a.C.Name(fn) + "|from|" + caller
 		a.R.Check(allow[caller], rule, key, "call of "+a.C.Name(fn)+" only from "+strings.Join(allowed, ", "), a.C.InstrPos(cs),
 			caller+" calls "+a.C.Name(fn)+" but is not one of the designated callers")
@@ -266,6 +278,18 @@ func instrIndex(in ssa.Instruction) int {
 
 // canReach: can control flow from instruction x to instruction y (x strictly before y on some path)?
 func canReach(x, y ssa.Instruction) bool {
+	if x.Parent() != y.Parent() {
+		if theCtx == nil {
+			return false
+		}
+		if cs := theCtx.soleCall(y.Parent()); cs != nil {
+			return ssa.Instruction(cs) == x || canReach(x, cs)
+		}
+		if cs := theCtx.soleCall(x.Parent()); cs != nil {
+			return canReach(cs, y)
+		}
+		return false
+	}
 	if x.Block() == y.Block() && instrIndex(x) < instrIndex(y) {
 		return true
 	}
@@ -283,7 +307,7 @@ func (a *An) WhoMayWriteDirect(rule string, target *types.Var, allowed ...string
 		allow[s] = true
 	}
 	for _, st := range a.DirectStoresTo(target) {
-		fn := a.C.Name(st.Parent())
+		fn := a.C.Name(a.C.owner(st.Parent()))
 		key := "write|" + target.Name() + "|" + fn
 		a.R.Check(allow[fn], rule, key, "store to "+target.Name()+" only in "+strings.Join(allowed, ", "), a.C.InstrPos(st),
 			fn+" writes "+target.Name()+" but is not one of the designated writers")
